@@ -18,6 +18,19 @@ ROOT = os.path.dirname(os.path.dirname(os.path.abspath(__file__)))
 REPO = os.environ.get("VERIF_REPO", "/repo")
 
 
+def evidence_dir():
+    """evidence/ records runs on /repo only.  A run against another tree
+    (VERIF_REPO=<scratch copy with a seeded change>, tools/seedcheck.sh) writes
+    to $VERIF_EVIDENCE_DIR or evidence-scratch/ (not committed), so that it can
+    never leave the record of a changed tree behind in evidence/."""
+    d = os.environ.get("VERIF_EVIDENCE_DIR")
+    if d:
+        return d
+    if os.path.realpath(REPO) != "/repo":
+        return os.path.join(ROOT, "evidence-scratch")
+    return os.path.join(ROOT, "evidence")
+
+
 def load_known():
     path = os.path.join(ROOT, "known_findings.json")
     if not os.path.exists(path):
@@ -229,14 +242,15 @@ class Report:
                     "(path condition /\\ assumed contracts ==> clause); distinct by name",
             "obligation_list": [o["name"] + ":" + o["verdict"] for o in self.obligations][:400],
         }
+        cov["verified_tree"] = os.path.realpath(REPO)
         cov.update(self.extra)
         ev = {"property_id": self.pid, "tier": self.tier, "seed": self.seed,
               "level": level, "coverage": cov,
               "assumptions": self.assumptions,
               "wall_s": round(time.time() - self.t0, 2),
               "violations": self.violations}
-        os.makedirs(os.path.join(ROOT, "evidence"), exist_ok=True)
-        with open(os.path.join(ROOT, "evidence", self.pid + ".json"), "w") as f:
+        os.makedirs(evidence_dir(), exist_ok=True)
+        with open(os.path.join(evidence_dir(), self.pid + ".json"), "w") as f:
             json.dump(ev, f, indent=1)
         if os.environ.get("VERIF_WRITE_BASELINE") and not self.broken:
             path = os.path.join(ROOT, "baseline_obligations.json")
